@@ -55,13 +55,16 @@ CHECKS = {
          "nan_combinations exactly the placements of the missing-value modality, and 'sort by measure, first viable wins' returns a viable candidate that no certainly-viable "
          "candidate beats / returns nothing iff nothing is viable / lets the ValueError escape iff a measure raises. The model of the whole two-stage search (exact rational "
          "surrogates of Cramer's V, Tschuprow's T, Kruskal-Wallis H; viability on train and dev) is run on the base modalities of a real Discretizer and must accept the "
-         "real carver's outcome (kept grouping / dropped / exception) for every feature of every generated case.",
+         "real carver's outcome (kept grouping / dropped / exception) for every feature of every generated case (MulticlassCarver: every one-vs-rest carving). The code's own "
+         "consecutive_combinations / nan_combinations are compared with the enumerators of the theorems, and the carver's _aggregator with the tables handed to the model, on every run.",
     ref="DESIGN.md section 8 C01", technique="Lean 4 proof (enumerator soundness+completeness, arg-max over viable candidates) + model/code correspondence of the search",
     note=BASE_NOTE + " scipy's doubles are compared with exact surrogates up to 1e-9 relative; exact rate ties in the train/dev rank test are accepted either way (numpy's sort is not stable)."),
  "C02": dict(
     text="Lean theorems (corollaries of C01's search): every acceptable winner has between 2 and max_n_mod groups (missing-value group included in stage 2), every group "
          "reaches min_freq_mod on the table the search ran on, and on a dev sample the frequency, distinct-rate and rank conditions hold. The property itself is judged on the "
-         "implementation's transform output alone (label counts and exact shares on train and dev, missing outputs, label sets, rate ranking), and the same cases go through the Lean model of the search.",
+         "implementation's transform output alone (label counts and exact shares on train and dev, missing outputs, label sets, rate ranking), and the same cases go through the Lean model of the search. "
+         "Row-level theorems (stage1_rows, stage2_rows, dev_rows, transform_label_is_groupIdx): when the table counts the rows of the base-discretized column (checked on the code's own _aggregator), "
+         "the rows that transform sends to each label are at least min_freq_mod of the column, there are at most max_n_mod labels, and every label is present on the dev sample.",
     ref="DESIGN.md section 8 C02", technique="Lean 4 proof (corollaries of the search theorems) + direct judgement of transform output + model/code correspondence",
     note=BASE_NOTE + " Rate ties in the ranking are counted as ambiguous, not as violations."),
  "C03": dict(
@@ -84,7 +87,7 @@ CHECKS = {
          "BaseDiscretizer.fit the label table's keys are exactly the kept features and the only failures are the missing-order AssertionError or an unbuildable label table "
          "(fit_error_cases, fit_labels_keys); the numeric cores are total functions (C09) and the repaired measure cannot raise (C01). On the code: the three carvers and seven "
          "discretizer classes are fitted on degenerate / adversarial well-formed samples; outcome class (ok / AssertionError / other) and, when ok, key sets of every attribute, "
-         "summary/history, well-formedness and coverage of each values_orders entry, untouched dropped columns.",
+         "summary/history, well-formedness and coverage of each values_orders entry, untouched dropped columns; the real _remove_feature is compared with its model (Disc.removeFeature) on copies of fitted objects.",
     ref="DESIGN.md section 8 C08", technique="Lean 4 proof (frame conditions of feature removal, key-set coherence) + exploration of degenerate inputs on the real code",
     note=BASE_NOTE + " 'Never an internal error' is provable only for the modelled cores; crashes in pandas/numpy glue are found (or not) by running the real code (partial)."),
  "C09": dict(
@@ -99,7 +102,8 @@ CHECKS = {
     text="Lean theorems about the model of ChainedDiscretizer._prepare_data + fit: through every level of any hierarchy the feature's order stays a well-formed partition and no value "
          "disappears (level_preserves, fitLevels_preserves by induction over the levels), a frequent value is never rewritten (level_target), unknown values are refused under 'raise'. "
          "Correspondence: fitted values_orders of the real class vs the model on random hierarchies/samples; judged on the code: hierarchy values kept, own-modality-iff-frequent, "
-         "merged into an ancestor, rare intermediate groups merged further up, unknown handling, transform = group leader.",
+         "merged into an ancestor, rare intermediate groups merged further up, unknown handling, transform = group leader. Also: rewriting rare values conserves the number of rows at every level "
+         "(level_total, fitLevels_total) and the whole fit yields a well-formed partition holding every value of the prepared order (fit_preserves).",
     ref="DESIGN.md section 8 C18", technique="Lean 4 proof (invariant by induction over hierarchy levels) + model/code correspondence",
     note=BASE_NOTE + " The flattening of levels into known_values (__init__) is read from the object, not modelled; numeric columns (StringDiscretizer twins) are judged but not compared with the model."),
  "C10": dict(
@@ -114,8 +118,10 @@ CHECKS = {
     text="Lean theorem findQuantiles_equivariant: for every strictly increasing re-encoding f of the values (in particular x -> a*x+b, a>0) the boundaries of find_quantiles are the images "
          "of the boundaries, for every histogram, q and whatever the float kernels return (they only see counts); row permutations and index relabellings are invisible to the model by "
          "construction (it consumes counts). On the code: metamorphic pairs (row permutation with index, three index relabellings, exact affine maps, order-preserving renamings; a family with "
-         "exact target-rate ties forcing cuts between tied categories) on the three carvers; kept features and partitions of row positions compared.",
-    ref="DESIGN.md section 8 C11", technique="Lean 4 proof (equivariance of the quantile search) + metamorphic pairs on the real carvers",
+         "exact target-rate ties forcing cuts between tied categories; a zero-inflated feature under a shift) on the three carvers; kept features and partitions of row positions compared. "
+         "For the carving search: counts_perm (a table counts the rows of every permutation of the column) and stage1/stage2_rename_equivariant (under any injective renaming of the base labels the "
+         "search returns the renamed winners, with the same measures and verdicts).",
+    ref="DESIGN.md section 8 C11", technique="Lean 4 proof (equivariance of the quantile search; equivariance of the carving search under renaming) + metamorphic pairs on the real carvers",
     note=BASE_NOTE + " Exactness of a*x+b is ensured by the generator (dyadic values, power-of-two factors)."),
  "C12": dict(
     text="Lean theorems about the orchestration facts MulticlassCarver relies on: carved classes are classes of the target (all but the smallest in string order), an indicator marks exactly the "
